@@ -84,6 +84,8 @@ pub fn observe_history<S: AsRef<[u8]>>(docs: &[S]) -> String {
             o.push_str(&render(&e, Preset::QuickXml, true));
             o.push('\u{1}');
             o.push_str(&render(&e, Preset::SerdeXmlRs, false));
+            o.push('\u{1}');
+            o.push_str(&e.to_serde_struct(&Options::quick_xml_de().derive("Debug, Clone, Debug, PartialEq, Clone")));
             o
         }) {
             Ok(o) => o,
